@@ -28,13 +28,14 @@
    Spec/RenderObjStm.v  render_objstm objs stms X — the same with unfiltered OBJECT STREAMS [stms] (C14's description of a
                         container) written among the objects; wf_olayout (Proofs/LoaderBytesOstm.v).
    Not covered (Model/LoaderBytes.v header): FILTERED xref / object streams (the abstraction reports them as plain
-   objects: the decoders need the zlib oracle), hybrid files in a theorem, referenced /Length —
+   objects: the decoders need the zlib oracle), hybrid files with object streams in a theorem, referenced /Length —
    for those the abstraction is still produced by props/loaderlib.py and validated per case. *)
 From PV Require Import Model.Obj Model.XrefTab Model.Loader Model.LoaderBytes Spec.Spelling Spec.XrefEnc Spec.RenderClassic.
 From PV Require Import Proofs.XrefBase Proofs.ObjStream Proofs.ObjSpell Proofs.Loader Proofs.LoaderObjs Proofs.LoaderMain Proofs.LoaderDoc
      Proofs.LoaderBytesBase Proofs.LoaderBytesObj Proofs.LoaderBytesSect Proofs.LoaderBytesMain Proofs.LoaderBytesEx
-     Proofs.XrefStm Proofs.LoaderBytesXstm Proofs.LoaderBytesXstmEx Proofs.LoaderBytesOstm Proofs.LoaderBytesOstmEx.
-From PV Require Import Spec.RenderXrefStm Spec.ObjStmEnc Spec.RenderObjStm.
+     Proofs.XrefStm Proofs.LoaderBytesXstm Proofs.LoaderBytesXstmEx Proofs.LoaderBytesOstm Proofs.LoaderBytesOstmEx
+     Proofs.LoaderBytesRev Proofs.LoaderBytesHybrid Proofs.LoaderBytesHybridEx.
+From PV Require Import Spec.RenderXrefStm Spec.ObjStmEnc Spec.RenderObjStm Spec.RenderHybrid.
 Close Scope N_scope.
 
 (* THE END-TO-END THEOREM: for every document, every legal classic layout and both build profiles, the loader
@@ -117,6 +118,30 @@ Theorem C03b_objstm_example_computed :
           ((5, 0)%N, VObj (OInt 11)); ((6, 0)%N, VObj (OInt 33))] (1, 0)%N.
 Proof. exact ex_ostm_computed. Qed.
 
+(* HYBRID FILES (Spec/RenderHybrid.v; no filter): a classic table whose trailer names, through /XRefStm, an unfiltered
+   cross-reference stream; every object is listed by the table or by the stream (no number twice); the loader merges
+   the table's entries with the stream's (Model/Loader.v parse_xref_section; C03's SA_hybrid) and loads exactly the
+   document.  In-file objects only (no object streams). *)
+Theorem C03_bytes_hybrid : forall rel d H,
+  wf_doc d -> wf_hylayout d H ->
+  exists c, load_bytes rel (render_hybrid (d_objs d) H) = Loaded c (d_root d) /\
+            forall id, ctx_get c id = ctx_get (ctx_of (d_objs d)) id.
+Proof. exact load_bytes_hybrid. Qed.
+
+Theorem C03b_hybrid_is_layout : forall rel d H,
+  wf_doc d -> wf_hylayout d H ->
+  layout_of (d_objs d) (d_root d) (abstract_file rel (render_hybrid (d_objs d) H))
+            (List.map (fun e => conv_ent (fillx (hyot (d_objs d) H) e)) (hyT H)).
+Proof. exact hybrid_layout_of. Qed.
+
+Theorem C03b_hybrid_nonvacuous : wf_doc ex_doc /\ wf_hylayout ex_doc ex_hylayout.
+Proof. exact (conj ex_wf_doc ex_wf_hylayout). Qed.
+
+Theorem C03b_hybrid_example_computed :
+  load_bytes false (render_hybrid (d_objs ex_doc) ex_hylayout) =
+  Loaded [((1, 0)%N, VObj (OName (B "Catalog"))); ((2, 0)%N, VObj (OStream [(B "Length", OInt 3)] (B "abc")))] (1, 0)%N.
+Proof. exact ex_hybrid_computed. Qed.
+
 (* ---------- the per-offset facts (each for arbitrary surrounding bytes) ---------- *)
 (* the header scan skips garbage that does not contain the magic; HeaderP cannot fail behind it *)
 Theorem C03b_magic_found : forall g r,
@@ -178,6 +203,10 @@ Print Assumptions C03_bytes_objstm.
 Print Assumptions C03b_item_ostm.
 Print Assumptions C03b_objstm_nonvacuous.
 Print Assumptions C03b_objstm_example_computed.
+Print Assumptions C03_bytes_hybrid.
+Print Assumptions C03b_hybrid_is_layout.
+Print Assumptions C03b_hybrid_nonvacuous.
+Print Assumptions C03b_hybrid_example_computed.
 Print Assumptions C03b_abstract_rendered.
 Print Assumptions C03b_magic_found.
 Print Assumptions C03b_header_found.
